@@ -185,7 +185,8 @@ def require_closure(vfiles: list[str]) -> list[str]:
         seen.append(f)
         txt = open(os.path.join(COQ, f)).read()
         txt = re.sub(r"\(\*.*?\*\)", " ", txt, flags=re.S)
-        for m in re.finditer(r"(From\s+(\S+)\s+)?Require\s+(?:Import\s+|Export\s+)?([^.]*(?:\.[A-Za-z_][\w.]*)*)\s*\.(?=\s|$)", txt):
+        # a sentence ends at a dot followed by white space; dots inside qualified names are not
+        for m in re.finditer(r"(From\s+(\S+)\s+)?Require\s+(?:Import\s+|Export\s+)?(.*?)\.(?=\s|$)", txt, flags=re.S):
             prefix = m.group(2)
             for name in m.group(3).split():
                 if name.startswith("TL."):
